@@ -145,5 +145,31 @@ pub fn check(cx: &Cx, rep: &mut Report) {
             rep.fail(P, "R5", format!("wrong_actor;hk={:?}", o.hk), format!("msg {} submitted through a {:?} derived from actor tag {} was handled by actor tag {}", o.msg, o.hk, o.tag, inv.tag), vec![o.b, inv.i]);
         }
     }
+    // R6: "keeps the actor fully functional" begins with keeping it running: whatever kind the remaining strong
+    // handles are of, the actor does not begin to terminate while one is held and nobody stopped it (the evidence of
+    // C05.R1; on L2 the count is a lower bound, see DESIGN §11)
+    let mut sub = Report::default();
+    super::c05::check(cx, &mut sub);
+    if let Some(n) = sub.premises.get("C05.R1.no_termination_while_held") {
+        rep.premise_n("C15.R6.runs_while_any_strong_handle_is_held", *n);
+    }
+    for v in sub.violations.into_iter().filter(|v| v.rule == "R1" && v.sig.starts_with("terminated_with_strong")) {
+        rep.fail(P, "R6", format!("c05:{}", v.sig), v.msg, v.at);
+    }
+    // R5 (identity): the only place where the library compares the identity of handles is the broker's subscriber
+    // table.  A handle obtained by conversion (addr.weak_sender(), sender.downgrade(), ...) must denote the same
+    // subscriber as the one the actor's own context registers: subscribe / unsubscribe through either path cancel
+    // and replace each other, nothing is delivered twice or after an unsubscribe (the evidence of C09.R1-R3)
+    if !cx.prog.topics.is_empty() {
+        let mut sub = Report::default();
+        super::c09::check(cx, &mut sub);
+        let n: u64 = sub.premises.iter().filter(|(k, _)| k.starts_with("C09.R2") || k.starts_with("C09.R3") || k.starts_with("C09.R1")).map(|(_, n)| *n).sum();
+        if n > 0 {
+            rep.premise_n("C15.R5.same_subscriber_through_conversions", n);
+        }
+        for v in sub.violations.into_iter().filter(|v| matches!(v.rule, "R1" | "R2" | "R3")) {
+            rep.fail(P, "R5", format!("c09:{}:{}", v.rule, v.sig), v.msg, v.at);
+        }
+    }
     rep.nontrivial = nontrivial;
 }
